@@ -141,6 +141,12 @@ Theorem C16_response_writer_order :
     end.
 Proof. exact get_response_writer_chain. Qed.
 
+(* the constants re-read from session.go are the ones of the property text *)
+Example C16_header_is_content_type_event_stream :
+  header_content_type = [67; 111; 110; 116; 101; 110; 116; 45; 84; 121; 112; 101]%N /\
+  content_type_value = [116; 101; 120; 116; 47; 101; 118; 101; 110; 116; 45; 115; 116; 114; 101; 97; 109]%N.
+Proof. vm_compute. split; reflexivity. Qed.
+
 (* non-vacuity: the first flush fails, the next Send upgrades again and only then writes *)
 Example C16_witness_failed_upgrade :
   let m := append_text msg_empty false [[97]%N] in
